@@ -33,7 +33,7 @@ type Op struct {
 }
 
 type Node struct {
-	K     string  `json:"k"` // lit expr templ join flush raw func nop
+	K     string  `json:"k"` // lit expr templ join flush raw func nop if for host
 	B     []byte  `json:"b,omitempty"`
 	ID    int     `json:"id,omitempty"`
 	File  string  `json:"file,omitempty"`
@@ -48,6 +48,23 @@ type Node struct {
 	Cond string  `json:"cond,omitempty"`
 	Case int     `json:"case,omitempty"`
 	Else []*Node `json:"else,omitempty"`
+	// host: a hand-written component that is passed a block of children (Kids; for a probe the block is the generated
+	// closure it receives through templ.GetChildren) and renders it Times times (0: not at all)
+	//   HK "pass"    into the writer it was given
+	//      "fwd"     through a forwarding writer of its own (Write only, hands the bytes on to w.Write); Lim >= 0: that writer
+	//                takes Lim bytes in all, then fails with CompErr{HErr}; Own: the component reports its writer's failure
+	//                itself before looking at what the children returned
+	//      "capture" into a bytes.Buffer of its own, copied to w with one Write once the children have returned nil
+	//      "bufio"   through a bufio.Writer of its own (size Size) in front of w (Write only), flushed afterwards
+	// Pre / Post: what the component writes (io.WriteString) around the children.
+	HK    string `json:"hk,omitempty"`
+	Lim   int    `json:"lim,omitempty"`
+	HErr  int    `json:"herr,omitempty"`
+	Own   bool   `json:"own,omitempty"`
+	Times int    `json:"times,omitempty"`
+	Size  int    `json:"size,omitempty"`
+	Pre   []byte `json:"pre,omitempty"`
+	Post  []byte `json:"post,omitempty"`
 }
 
 // Env maps Key(path, id) to what the oracle with that id answers inside the loop iterations path (innermost first).
@@ -109,6 +126,7 @@ type Job struct {
 	Prog   *Node         `json:"prog,omitempty"`
 	Env    Env           `json:"env,omitempty"`
 	Comps  map[int]*Node `json:"comps,omitempty"` // hand-built components the probe receives through v.C(i)
+	Hosts  map[int]*Node `json:"hosts,omitempty"` // hand-written components (K "host", no Kids) the probe passes a block of children to: v.K(i)
 	Cancel int           `json:"cancel,omitempty"`
 	HTML   bool          `json:"html,omitempty"`
 	Sink   SinkSpec      `json:"sink"`
@@ -439,6 +457,7 @@ type V struct {
 	env   Env
 	path  []int
 	comps map[int]templ.Component
+	hosts map[int]templ.Component
 	once  map[int]*templ.OnceHandle
 }
 
@@ -456,7 +475,7 @@ func (v V) L(i int) []V {
 	n := v.env.num(v.path, i)
 	out := make([]V, n)
 	for k := range out {
-		out[k] = V{env: v.env, path: append([]int{k}, v.path...), comps: v.comps, once: v.once}
+		out[k] = V{env: v.env, path: append([]int{k}, v.path...), comps: v.comps, hosts: v.hosts, once: v.once}
 	}
 	return out
 }
@@ -464,6 +483,14 @@ func (v V) L(i int) []V {
 // C is a component handed in from outside the template.
 func (v V) C(i int) templ.Component {
 	if c, ok := v.comps[i]; ok {
+		return c
+	}
+	return templ.NopComponent
+}
+
+// K is a hand-written component that is passed a block of children.
+func (v V) K(i int) templ.Component {
+	if c, ok := v.hosts[i]; ok {
 		return c
 	}
 	return templ.NopComponent
@@ -477,6 +504,106 @@ func (v V) H(i int) *templ.OnceHandle {
 	h := templ.NewOnceHandle()
 	v.once[i] = h
 	return h
+}
+
+// ---------- hand-written components that are passed a block of children ----------
+
+// fwdW is the writer such a component puts between the block and the writer it was given itself: a tee, a byte
+// counter, a hasher, a cache ... It has Write only. With limited set it takes rem bytes in all.
+type fwdW struct {
+	w       io.Writer
+	limited bool
+	rem     int
+	failed  bool
+	err     error
+	n       int // bytes handed on (what a counter / cache would keep)
+}
+
+func (f *fwdW) Write(p []byte) (int, error) {
+	if f.failed {
+		return 0, f.err
+	}
+	q := p
+	if f.limited && len(p) > f.rem {
+		q = p[:f.rem]
+	}
+	n, err := f.w.Write(q)
+	f.n += n
+	if f.limited {
+		f.rem -= n
+	}
+	if err != nil {
+		return n, err
+	}
+	if len(q) < len(p) {
+		f.failed = true
+		return n, f.err
+	}
+	return n, nil
+}
+
+// onlyWriter hides every method of a writer but Write.
+type onlyWriter struct{ w io.Writer }
+
+func (o onlyWriter) Write(p []byte) (int, error) { return o.w.Write(p) }
+
+// hostComp is the hand-written component described by a host node; the block is what templ.GetChildren returns.
+func hostComp(n *Node) templ.Component {
+	return templ.ComponentFunc(func(ctx context.Context, w io.Writer) error {
+		children := templ.GetChildren(ctx)
+		ctx = templ.ClearChildren(ctx)
+		if len(n.Pre) > 0 {
+			if _, err := io.WriteString(w, string(n.Pre)); err != nil {
+				return err
+			}
+		}
+		switch n.HK {
+		case "fwd":
+			fw := &fwdW{w: w, limited: n.Lim >= 0, rem: n.Lim, err: &CompErr{ID: n.HErr}}
+			var err error
+			for i := 0; i < n.Times && err == nil; i++ {
+				err = children.Render(ctx, fw)
+			}
+			if n.Own && fw.failed {
+				return fw.err
+			}
+			if err != nil {
+				return err
+			}
+		case "capture":
+			var buf bytes.Buffer
+			for i := 0; i < n.Times; i++ {
+				if err := children.Render(ctx, &buf); err != nil {
+					return err
+				}
+			}
+			if _, err := w.Write(buf.Bytes()); err != nil {
+				return err
+			}
+		case "bufio":
+			bw := bufio.NewWriterSize(onlyWriter{w}, n.Size)
+			for i := 0; i < n.Times; i++ {
+				if err := children.Render(ctx, bw); err != nil {
+					return err
+				}
+			}
+			if err := bw.Flush(); err != nil {
+				return err
+			}
+		default: // pass
+			for i := 0; i < n.Times; i++ {
+				if err := children.Render(ctx, w); err != nil {
+					return err
+				}
+			}
+		}
+		if len(n.Post) > 0 {
+			if _, err := io.WriteString(w, string(n.Post)); err != nil {
+				return err
+			}
+		}
+		return nil
+	})
 }
 
 type stmt func(ctx context.Context, buf *templruntime.Buffer) error
@@ -555,6 +682,14 @@ func buildBody(kids []*Node, env Env, path []int) []stmt {
 				return nil
 			})
 		default:
+			if k.K == "host" {
+				hc := hostComp(k)
+				block := handTempl(false, buildBody(k.Kids, env, path))
+				body = append(body, func(ctx context.Context, buf *templruntime.Buffer) error {
+					return hc.Render(templ.WithChildren(ctx, block), buf) // as the generated code passes a block
+				})
+				continue
+			}
 			c := Build(k, env, path)
 			if k.K == "flush" && len(k.Kids) > 0 {
 				block := handTempl(false, buildBody(k.Kids, env, path))
@@ -624,6 +759,12 @@ func Build(n *Node, env Env, path []int) templ.Component {
 		})
 	case "nop":
 		return templ.NopComponent
+	case "host":
+		hc := hostComp(n)
+		block := handTempl(false, buildBody(n.Kids, env, path))
+		return templ.ComponentFunc(func(ctx context.Context, w io.Writer) error {
+			return hc.Render(templ.WithChildren(ctx, block), w)
+		})
 	}
 	// a statement outside a template body: wrap in a block closure
 	return handTempl(false, buildBody([]*Node{n}, env, path))
@@ -640,9 +781,12 @@ func Exec(j *Job, probes Probes) (o Obs) {
 		if !ok {
 			return Obs{Res: "other:no such probe " + j.Probe}
 		}
-		v := V{env: j.Env, comps: map[int]templ.Component{}, once: map[int]*templ.OnceHandle{}}
+		v := V{env: j.Env, comps: map[int]templ.Component{}, hosts: map[int]templ.Component{}, once: map[int]*templ.OnceHandle{}}
 		for i, n := range j.Comps {
 			v.comps[i] = Build(n, j.Env, nil)
+		}
+		for i, n := range j.Hosts {
+			v.hosts[i] = hostComp(n)
 		}
 		comp = f(v)
 	} else {
